@@ -121,9 +121,18 @@ def run(tier):
         C.notes.append("replayed a VERIF_SEED sample of %d of %d explored transitions" % (limit, len(r.tags["EDGE"])))
     else:
         C.cov["exhaustive"] = True
-    names = sorted(edges[0]["pre"].keys())
+    # chains of depth 4 (Universe "chain": names A, B, C.h, D; single adds): all transitions
+    with open(vp.SPEC + "/MC_Registry_run.cfg", "w") as f:
+        f.write(open(vp.SPEC + "/MC_Registry.cfg").read().replace('Universe = "small"', 'Universe = "chain"').replace('Names = {"A", "B", "C.h"}', 'Names = {"A", "B", "C.h", "D"}'))
+    rc = vp.tlc("MC_Registry", "MC_Registry_run", workers=4, timeout=3000, name="c10-chain", xmx="16g")
+    C.add_tlc(rc, "MC_Registry universe=chain (4 names, single adds)")
+    cedges = rc.tags["EDGE"]
+    if tier == "quick" and len(cedges) > 6000:
+        cedges = rnd.sample(cedges, 6000)
+    edges = edges + cedges
     jobs, meta = [], []
     for ei, e in enumerate(edges):
+        names = sorted(e["pre"].keys())
         pre, act = e["pre"], e["act"]
         pres = present(pre)
         base_cfg = {"prefixes": ["p/"], "autoescape": [".h"]}
@@ -166,6 +175,7 @@ def run(tier):
         if mode == "fresh":
             continue
         e = edges[ei]
+        names = sorted(e["pre"].keys())
         act = e["act"]
         C.count()
         key = {"pre": {n: G.src(n, d) for n, d in present(e["pre"]).items()}, "act": batch_src(act["batch"]) if act["kind"] == "add" else act["s"], "history": mode}
@@ -229,7 +239,7 @@ def run(tier):
         if (comps[0]["tpl"] if comps else "") != owner:
             C.violation(dict(key, kind="owner"), "component owner %s, specification %r" % (comps, owner), {"job": job})
     k = len(edges) // 2
-    C.sample({"pre": {n: G.src(n, d) for n, d in present(edges[k]["pre"]).items()}, "action": edges[k]["act"], "post_text": {n: edges[k]["post"][n].get("text") for n in names}})
+    C.sample({"pre": {n: G.src(n, d) for n, d in present(edges[k]["pre"]).items()}, "action": edges[k]["act"], "post_text": {n: edges[k]["post"][n].get("text") for n in sorted(edges[k]["pre"].keys())}})
     C.assumptions += ["descriptor universe of MC_Registry.tla; names A, B, C.h and prefix p/",
                       "which of several applicable error classes is reported is not demanded",
                       "`include` of a template that extends another one is unspecified (text not compared)"]
